@@ -43,6 +43,7 @@ func (o *Options) skipInit(pkgPath string) bool {
 }
 
 type Harness struct {
+	PreemptIn    string // when set, only goroutines whose entry function name contains this text are preempted (focuses the preemption budget)
 	PreemptCalls string // import-path prefix: calls into these packages are preemption points (data-race windows between visible operations)
 	Name         string
 	Pkg          string
@@ -91,8 +92,11 @@ type ViolationOut struct {
 	Site    string                 `json:"site"`
 	Trace   []string               `json:"trace"`
 	Inputs  map[string]interface{} `json:"inputs"`
-	Count   int                    `json:"count"`
-	Harness string                 `json:"harness"`
+	// AltInputs: counterexamples of other paths that violate the same obligation (at most 5); the driver replays them
+	// when the first one does not reproduce natively (an engine-only stub may be more liberal than the real function on one input)
+	AltInputs []map[string]interface{} `json:"alt_inputs,omitempty"`
+	Count     int                      `json:"count"`
+	Harness   string                   `json:"harness"`
 }
 
 type HarnessResult struct {
@@ -290,6 +294,10 @@ func findHarnesses(prog *ssa.Program, pkgs []*packages.Package, prop string, tie
 						h.Timers = atoi(1)
 					case "delays":
 						h.Delays = atoi(1)
+					case "preemptin":
+						if len(f) > 1 {
+							h.PreemptIn = f[1]
+						}
 					case "preemptcalls":
 						// calls into packages with this import-path prefix are preemption points too
 						if len(f) > 1 {
@@ -422,6 +430,9 @@ func (e *explorer) done(pr *PathResult, forks []*WorkItem, w *Worker, sample *Sa
 		key := v.Kind + "|" + v.Label + "|" + v.Site
 		if ex, ok := e.vio[key]; ok {
 			ex.Count++
+			if len(ex.AltInputs) < 5 {
+				ex.AltInputs = append(ex.AltInputs, v.Inputs)
+			}
 			continue
 		}
 		vo := &ViolationOut{Kind: v.Kind, Label: v.Label, Site: v.Site, Trace: v.Trace, Count: 1, Harness: e.h.Name}
